@@ -1968,7 +1968,7 @@ struct Gen
 					set		  = false;
 					zero_game = true;	// keeps the range clamp below from turning the way back into a Set_Prefactor
 				}
-				else if(r.chance(0.03))
+				else if(r.chance(two_d ? 0.10 : 0.05))
 				{
 					// reach zero: directly, or by underflow of two tiny factors
 					zero_game = true;
@@ -1976,8 +1976,15 @@ struct Gen
 						f = 0.0;
 					else
 					{
+						// two tiny factors in a row: the running product underflows to (signed) zero at the second one
 						f	= r.sign() * 1e-200;
 						set = false;
+						if(std::fabs(net[c.slot]) > 1e-100 && std::fabs(net[c.slot]) < 1e100)
+						{
+							p.ops.push_back(Op("mul", {c.slot}, {f}));
+							net[c.slot] *= f;
+							f = r.sign() * 1e-200;
+						}
 					}
 				}
 				double nn = set ? f : net[c.slot] * f;
